@@ -108,12 +108,13 @@ ob("C10", "nd.join_non_none", {"mask_a": R(0, 7), "mask_b": R(0, 7), "k0": R(0, 
 
 
 # ------------------------------------------------------------------------------------------- import inference
-TYPES = ("Optional[int]", "List[str]", "Literal['a', 'b']", "Union[int, str]", "Dict[str, int]", "Tuple[int, int]")
+TYPES = ("Optional[int]", "List[str]", "Literal['a', 'b']", "Union[int, str]", "Dict[str, int]", "Final[int]")
 
 
 def _module(mask):
-    args = ", ".join("a%d: %s" % (i, t) for i, t in enumerate(TYPES) if mask & (1 << i))
-    return ast.parse("def f(%s):\n    pass\n\n__all__ = ['f', 'g']\n__all__ = ['b', 'f']\n" % args)
+    args = ", ".join("a%d: %s" % (i, t) for i, t in enumerate(TYPES) if (mask & (1 << i)) or i == 5)
+    # `final` and `Final` differ only by case (ties under a case-insensitive sort key)
+    return ast.parse("@final\ndef f(%s):\n    pass\n\n__all__ = ['f', 'g']\n__all__ = ['b', 'f']\n" % args)
 
 
 def _dump(x):
@@ -135,8 +136,6 @@ def _dump0(x):
 
 
 def nd_imports(mask, k0, k1, k2):
-    if mask == 0:
-        return ""
     ND.reset((k0, k1, k2))
     m1 = _module(mask)
     a = _au.infer_imports(m1)
@@ -162,10 +161,10 @@ def nd_imports_replay(mask, k0, k1, k2):
         "_au.merge_assignment_lists(m,'__all__'); print(_dump(m))" % mask)
 
 
-ob("C10", "nd.imports", {"mask": R(0, 63), "k0": R(0, 23), "k1": R(0, 23), "k2": R(0, 23)}, T=300, replay=nd_imports_replay,
+ob("C10", "nd.imports", {"mask": R(0, 7), "k0": R(0, 5), "k1": R(0, 5), "k2": R(0, 1)}, T=300, replay=nd_imports_replay,
    funcs=["cdd.shared.ast_utils.infer_imports", "cdd.shared.ast_utils.optimise_imports", "cdd.shared.ast_utils.merge_assignment_lists",
           "cdd.shared.ast_utils.get_types", "cdd.shared.ast_utils.symbol_to_import"], assumes=[ND_ASSUME],
-   bound="module with one function whose parameters use ANY subset of the annotations %r and two __all__ assignments; first three set iterations in ANY permutation" % (TYPES,))(nd_imports)
+   bound="module with one function whose parameters use Final[int] plus ANY subset of the first three annotations of %r, decorated @final, and two __all__ assignments; first set iterations permuted by the solver (6 x 6 x 2 choices)" % (TYPES,))(nd_imports)
 
 
 PERMS = ((0, 1, 2, 3), (1, 0, 2, 3), (2, 0, 1, 3), (3, 2, 1, 0), (0, 2, 1, 3), (1, 3, 0, 2))
